@@ -45,6 +45,10 @@ func DeserializeStringArray(data []byte) ([]string, error) {
 	if eof {
 		return nil, fmt.Errorf("source.NextVarUint error")
 	}
+	// every string takes at least one byte (its length prefix)
+	if n > source.Len() {
+		return nil, fmt.Errorf("string array length %d exceeds remaining %d bytes", n, source.Len())
+	}
 	result := make([]string, 0, n)
 	for i := 0; uint64(i) < n; i++ {
 		ss, eof := source.NextString()
